@@ -305,5 +305,35 @@ impl<Q: ColorPainter> ColorPainter for CollectFillGlyphPainter<'_, Q> {
 //@end
 }
 
+// ---- API entry: ColorGlyph::paint (recurse_depth = 0, fresh decycler) ----
+//@require source=colormod seq="enum ColorGlyphRoot<'a> { V0Range(Range<usize>), V1Paint(colr::Paint<'a>, PaintId, GlyphId, Result<u16, ReadError>), }"
+pub enum ColorGlyphRoot<'a> {
+    V0Range(Range<usize>),
+    V1Paint(Paint<'a>, PaintId, GlyphId, Result<u16, ReadError>),
+}
+//@require source=colormod seq="pub struct ColorGlyph<'a> { colr: colr::Colr<'a>, root_paint_ref: ColorGlyphRoot<'a>, }"
+pub struct ColorGlyph<'a> {
+    pub colr: Colr<'a>,
+    pub root_paint_ref: ColorGlyphRoot<'a>,
+}
+// construction of the variation instance from the table and the location: does not receive the painter
+#[verifier::external_body]
+pub fn colr_instance_for<'a, L>(colr: &Colr<'a>, location: L) -> ColrInstance<'a> { unimplemented!() }
+
+impl<'a> ColorGlyph<'a> {
+//@extract source=colormod container="impl<'a> ColorGlyph<'a>" fn=paint ret=res
+//@rewrite "instance::ColrInstance::new(self.colr.clone(), location.into().effective_coords())" => "colr_instance_for(&self.colr, location)"
+//@rewrite "traversal::ColorStopVec::default()" => "ColorStopVec::default()"
+//@spec
+        ensures
+            final(painter).skel() == old(painter).skel(),
+            !muted_of(old(painter).skel()) ==> old(painter).root().stack.is_prefix_of(final(painter).root().stack),
+            // a successful paint leaves every scope it opened closed, in LIFO order, with matching kinds
+            !muted_of(old(painter).skel()) && res.is_ok() ==> final(painter).root() == old(painter).root(),
+//@at body-start
+        broadcast use lemma_pop_push;
+//@end
+}
+
 }
 fn main() {}
